@@ -25,7 +25,9 @@ def run(ctx):
     consts = dict(Shares='{"0", "1"}', Size=2, MaxOps=2 if ctx.quick else 4, USecrets='{"u1", "u2"}', Enablers='{"wA", "wB"}', AuthMode='"correct"',
                   HdrMode='"few"', Eps=hf.EPS)
     hf.run_mc(ctx, "MC_authorised_interleavings", consts, INV, PROPS, timeout=3000)
-    n = 100 if ctx.quick else 1200
+    if not ctx.quick:
+        hf.run_mc(ctx, "MC_authorised_size3", dict(consts, Size=3, MaxOps=3), INV, PROPS, timeout=3000)
+    n = 50 if ctx.quick else 500
     ev = 30 if ctx.quick else 45
     traces = ctx.impl("harness/http_driver.py", ["--mode", "twin", "--n", n, "--events", ev])
     nops = 0
